@@ -752,6 +752,73 @@ def _api_update_cron(api, values, qfilter):
     return [('read',), ('cas', 0, qfilter, values), ('commit',)]
 
 
+# ------------------------------------------------------------------ action result acceptance
+ACT_SRC = 'mistral/engine/actions.py'
+ACTH_SRC = 'mistral/engine/action_handler.py'
+ENG_SRC = 'mistral/engine/default_engine.py'
+TAG_TASK = 2
+A_STATE, A_OUT = 0, 2      # script variables: the state the result maps to, the converted output
+
+
+def action_complete(repo):
+    """DefaultEngine.on_action_complete -> action_handler.on_action_complete -> RegularAction.complete:
+    look-up, `is_completed` guard on the loaded copy (raise ValueError), ORM assignments of state,
+    output, accepted, then the hand-off to the task.  The translator also asserts that NO lock and NO
+    compare-and-swap protects the action row on this path (if one is added the script must be
+    re-modelled)."""
+    tabs = states_tables(repo)
+    act = _parse(repo, ACT_SRC)
+    fn = _func(act, 'complete', 'RegularAction')
+    b = _body(fn)
+    srcs = [_src(x) for x in b]
+    want_guard = ("if states.is_completed(self.action_ex.state):\n    raise ValueError("
+                  "'Action {} is already completed'.format(self.action_ex.id))")
+    chain = ('if result.is_success():\n    self.action_ex.state = states.SUCCESS\n'
+             'elif result.is_cancel():\n    self.action_ex.state = states.CANCELLED\n'
+             'else:\n    self.action_ex.state = states.ERROR')
+    want = ['assert self.action_ex', want_guard, 'prev_state = self.action_ex.state', chain,
+            'converted_result = self.action_desc.post_process_result(result)',
+            'self.action_ex.output = converted_result.to_dict()', 'self.action_ex.accepted = True',
+            'self._log_result(prev_state, result)']
+    if srcs != want:
+        raise Refuse('RegularAction.complete changed: %r' % [x[:60] for x in srcs])
+    for rel, names in ((ACT_SRC, None), (ACTH_SRC, None)):
+        with open(os.path.join(repo, rel)) as f:
+            txt = f.read()
+        for dev in ('acquire_lock', 'named_lock', 'update_on_match'):
+            if dev in txt:
+                raise Refuse('%s now uses %s: re-model the action acceptance script' % (rel, dev))
+    ah = _func(_parse(repo, ACTH_SRC), 'on_action_complete')
+    hs = [_src(x) for x in _body(ah)]
+    if hs[0] != 'task_ex = action_ex.task_execution' or hs[1] != 'action = _build_action(action_ex)' or \
+            not hs[2].startswith('try:\n    action.complete(result)\nexcept exc.MistralException as e:') or \
+            hs[3] != 'if task_ex:\n    task_handler.schedule_on_action_complete(action_ex)' or len(hs) != 4:
+        raise Refuse('action_handler.on_action_complete changed')
+    eng = _func(_parse(repo, ENG_SRC), 'on_action_complete', 'DefaultEngine')
+    es = _src(eng)
+    if 'action_ex = db_api.get_action_execution(action_ex_id)' not in es or \
+            'action_handler.on_action_complete(action_ex, result)' not in es or 'acquire_lock' in es:
+        raise Refuse('DefaultEngine.on_action_complete changed')
+    # column kinds of ActionExecution
+    mod = _parse(repo, MOD_SRC)
+    kinds = {}
+    for n in mod.body:
+        if isinstance(n, ast.ClassDef) and n.name in ('Execution', 'ActionExecution'):
+            for st_ in n.body:
+                if isinstance(st_, ast.Assign) and isinstance(st_.targets[0], ast.Name) and \
+                        st_.targets[0].id in ('state', 'output', 'accepted'):
+                    col = _src(st_.value).split('sa.Column(', 1)[1]
+                    kinds[st_.targets[0].id] = col.startswith('st.Json')
+    if kinds != {'state': False, 'output': True, 'accepted': False}:
+        raise Refuse('ActionExecution column kinds: %r' % kinds)
+    return [('read',),
+            ('raiseIf', ('isIn', ('obj', WF_FIELDS['state']), tabs['completed'])),
+            ('assign', WF_FIELDS['state'], ('var', A_STATE), False),
+            ('assign', WF_FIELDS['output'], ('var', A_OUT), True),
+            ('assign', WF_FIELDS['accepted'], ('const', True), False),
+            ('emit', ('tt',), TAG_TASK)]
+
+
 # ------------------------------------------------------------------ entry points
 def scripts(repo):
     """the scripts as python data (also used by harness/race_driver.py)"""
@@ -773,6 +840,7 @@ def scripts(repo):
     last, nxt = cron_scripts(repo)
     res['advanceLast'] = last
     res['advanceNext'] = nxt
+    res['actionComplete'] = action_complete(repo)
     res = {k: strip_nops(v) for k, v in res.items()}
     return res, w.tabs
 
@@ -796,6 +864,9 @@ def generate(repo):
                        'db_api.delete_cron_trigger (look-up, DELETE, row count = won)',
         'advanceNext': 'periodic.advance_cron_trigger, other occurrences: db_api.update_cron_trigger with '
                        'query_filter (look-up, update_on_match, (obj, 1|0))',
+        'actionComplete': 'DefaultEngine.on_action_complete -> action_handler.on_action_complete -> '
+                          'RegularAction.complete: look-up, is_completed guard (raise), ORM assignments of state / '
+                          'output / accepted, hand-off to the task; no lock, no compare-and-swap on the action row',
     }
     out = ['-- GENERATED by translate/race_scripts.py from %s, %s, %s, %s, %s; do not edit.'
            % (WF_SRC + ', ' + WFH_SRC + ', ' + MOD_SRC, API_SRC, ST_SRC, PER_SRC, TRG_SRC),
@@ -808,7 +879,7 @@ def generate(repo):
         out.append('def validFrom%s : List Val := %s' % (tgt.capitalize(), lvals(valid_from(tabs, tgt))))
     out.append('')
     for name in ('succeedWorkflow', 'failWorkflow', 'cancelWorkflow', 'cacSucceedWorkflow',
-                 'cacFailWorkflow', 'cacCancelWorkflow', 'advanceLast', 'advanceNext'):
+                 'cacFailWorkflow', 'cacCancelWorkflow', 'advanceLast', 'advanceNext', 'actionComplete'):
         out.append(lscript(name, sc[name], docs[name]))
         out.append('')
     out.append('/-- the local decrement of advance_cron_trigger -/')
@@ -822,7 +893,7 @@ def generate(repo):
     out.append('  | _ => none')
     out.append('end Mistral.Gen.RaceScripts')
     return {'files': {'RaceScripts': '\n'.join(out) + '\n'},
-            'sources': [WF_SRC, WFH_SRC, MOD_SRC, API_SRC, ST_SRC, PER_SRC, TRG_SRC]}
+            'sources': [WF_SRC, WFH_SRC, MOD_SRC, API_SRC, ST_SRC, PER_SRC, TRG_SRC, ACT_SRC, ACTH_SRC, ENG_SRC]}
 
 
 if __name__ == '__main__':
